@@ -53,10 +53,13 @@ func (c *Completer) Init() {
 }
 
 func setHook(p *slip.Package, key string) {
-	if p == &Pkg ||
+	// Set hooks are called with the bare variable name and with the package
+	// qualified name. Only the bare name can be looked up when the config
+	// file is written.
+	if !strings.Contains(key, ":") && (p == &Pkg ||
 		strings.HasPrefix(key, "*print-") ||
 		key == "*bag-time-format*" ||
-		key == "*bag-time-wrap*" {
+		key == "*bag-time-wrap*") {
 		modifiedVars[key] = true
 		updateConfigFile()
 	}
